@@ -5,7 +5,7 @@
    [wf_env e] = the table of e is one of those five and the gas-table prices are positive; it holds
    of every environment [env_of cfg height ...] (C07_env_wf).  Statements only; proofs in Evm/InterpProofs*.v. *)
 From Coq Require Import ZArith List Bool.
-From AQ Require Import Evm.OpsModel Evm.Interp Evm.InterpProofs Evm.InterpProofs2 Evm.InterpProofs3 Evm.InterpProofsStatic Evm.InterpProofsMemInv Evm.InterpProofsPanic.
+From AQ Require Import Evm.OpsModel Evm.Interp Evm.InterpProofs Evm.InterpProofs2 Evm.InterpProofs3 Evm.InterpProofsStatic Evm.InterpProofsMemInv Evm.InterpProofsPanic Evm.InterpProofsExec Evm.InterpProofsDepth Evm.OpsProofsJumpdest.
 Import ListNotations.
 Local Open Scope Z_scope.
 
@@ -139,29 +139,94 @@ Theorem C07_memory_bounded : forall fuel e code input self caller value gas ro d
   wf_env e -> 0 <= gas < 2^32 -> 1 <= depth <= CallCreateDepth + 1 ->
   frame_reach (interp fuel e) e w0 (new_frame code input self caller value gas ro depth tr) w fr ->
   exists words, 0 <= words /\ blen (f_mem fr) = 32 * words /\
-                3 * words + words * words / 512 <= gas - f_gas fr.
+                3 * words + words * words / 512 <= gas - f_gas fr /\ 0 <= f_gas fr.
 Proof. exact memory_bounded. Qed.
 Print Assumptions C07_memory_bounded.
 
-(* "never crashes".  Full statement (NOT proved):
-     forall fuel e w caller addr input gas value, wf_env e -> 0 <= gas < 2^32 ->
+(* the growth bound: the memory a frame holds at any point of its run is bounded by a function of the gas it was
+   supplied: at most gas/3 words and at most sqrt(512*gas + 511) words *)
+Theorem C07_memory_growth_bound : forall fuel e code input self caller value gas ro depth tr w0 w fr,
+  wf_env e -> 0 <= gas < 2^32 -> 1 <= depth <= CallCreateDepth + 1 ->
+  frame_reach (interp fuel e) e w0 (new_frame code input self caller value gas ro depth tr) w fr ->
+  exists words, blen (f_mem fr) = 32 * words /\ 0 <= words /\ 3 * words <= gas /\ words * words <= 512 * gas + 511.
+Proof. exact memory_growth_bound. Qed.
+Print Assumptions C07_memory_growth_bound.
+
+(* call depth, the window form (by induction on the fuel, for every environment and table): whatever a frame running at
+   evm.depth d executes — itself and every frame below it, to any nesting — is recorded at a depth between d and
+   CallCreateDepth+1 = 1025 (with e_trace on, every executed instruction is recorded).  So a run from evm.depth d nests
+   at most 1025 - d frames below it, i.e. at most 1024 - (Yellow-Paper depth) further calls. *)
+Theorem C07_depth_window : forall fuel e w fr, 1 <= f_depth fr <= CallCreateDepth + 1 ->
+  exists new, o_trace (interp fuel e w fr) = new ++ f_trace fr /\
+              Forall (fun t => f_depth fr <= t_depth t <= CallCreateDepth + 1) new.
+Proof. exact depth_window. Qed.
+Print Assumptions C07_depth_window.
+
+(* "never crashes".
+   (a) operation.execute, for EVERY instruction of the regenerated tables: once the pre-checks of Interpreter.Run
+   passed — the stack holds what validateStack checked (need_exec x <= its length; the tables bind every execute
+   function to an arity that covers its pops: InterpProofsExec.tables_exec_ok), the memory covers what the
+   memorySize function bound to the instruction asked for ([covered]; the tables bind every execute function to
+   the memorySize function that covers the ranges it touches), and the frame is one the interpreter can be in
+   (stack items are non-negative integers, code is made of bytes, memory shorter than 2^62) — the execute
+   function does not panic, provided the frames below and the precompiled contracts do not. *)
+Theorem C07_execute_never_panics : forall rec e w fr x temp,
+  (forall w' f', o_res (rec w' f') <> R_panic) ->
+  (forall w' a i g rd tr ro, o_res (run_precompile e w' a i g rd tr ro) <> R_panic) ->
+  need_exec x <= blen (f_stack fr) -> need_exec x <= 17 -> exec_param_ok x = true ->
+  Forall (fun v => 0 <= v) (f_stack fr) -> Forall byteval (f_code fr) -> blen (f_mem fr) < 2 ^ 62 ->
+  covered x (f_stack fr) (f_mem fr) ->
+  exec rec e w fr x temp <> X_panic.
+Proof. exact exec_no_panic. Qed.
+Print Assumptions C07_execute_never_panics.
+
+(* (b) a whole iteration of the loop of Interpreter.Run on the regenerated tables: lookup, validateStack,
+   enforceRestrictions, memorySize + overflow checks, gas function, UseGas, Resize, execute.  The pre-checks
+   establish the premises of (a): the memory size charged for is <= 0xffffffffe0 (memoryGasCost), covers the
+   big.Int the memorySize function returned (run_memorySize_ge), and the memory is resized to it. *)
+Theorem C07_iteration_never_panics : forall rec e w fr o, wf_env e ->
+  (forall w' f', o_res (rec w' f') <> R_panic) ->
+  (forall w' a i g rd tr ro, o_res (run_precompile e w' a i g rd tr ro) <> R_panic) ->
+  frame_sane fr ->
+  step rec e w fr = S_done o -> o_res o <> R_panic.
+Proof. exact step_no_panic. Qed.
+Print Assumptions C07_iteration_never_panics.
+
+(* (c) precompiled contracts: all but bigModExp cannot panic whatever the oracle answers *)
+Theorem C07_precompiles_never_panic_but_modexp : forall e w a i g rd tr ro, a <> 5 ->
+  o_res (run_precompile e w a i g rd tr ro) <> R_panic.
+Proof. exact run_precompile_safe. Qed.
+Print Assumptions C07_precompiles_never_panic_but_modexp.
+
+(* (d) REFUTED without a bound on the gas: bigModExp with a 1-byte modulus and a declared exponent length of 2^60
+   costs 461168601842738790 gas (< 2^64); given 2^63 gas, Run asks getData for a 2^60-byte buffer and make() panics;
+   with a block's worth of gas the call just runs out of gas.  (Outside the property's quantifier — gas up to the
+   block limit — and reachable only through RPC calls without a gas cap; observed on the implementation with
+   expLen 2^40: fatal out-of-memory.) *)
+Theorem C07_never_panics_needs_gas_bound_refuted :
+  modexp_gas modexp_huge_input = Ok 461168601842738790 /\
+  o_res (run_precompile (demo_env 40000) demo_world 5 modexp_huge_input (2 ^ 63) [] [] false) = R_panic /\
+  o_res (run_precompile (demo_env 40000) demo_world 5 modexp_huge_input 8000000 [] [] false) = R_err (IE_op ErrOutOfGas) [].
+Proof. exact modexp_panics_with_huge_gas. Qed.
+Print Assumptions C07_never_panics_needs_gas_bound_refuted.
+
+(* (e) the whole run.  Full statement (NOT proved):
+     forall fuel e w caller addr input gas value, wf_env e -> 0 <= gas < 2^32 -> (the world, the environment, the
+     input and the oracle outputs are made of non-negative integers / bytes) ->
        o_res (call_top fuel e w caller addr input gas value) <> R_panic          (and the same for create_top).
-   (It is false without a bound on the gas: with about 4.6e17 gas bigModExp may be asked for a 2^60-byte
-   exponent with a 1-byte modulus, and getData's make() panics; no block can hold that gas.)
-   Proved part (_partial): in an iteration of the loop nothing BEFORE operation.execute can panic — table
-   lookup, validateStack, enforceRestrictions, the memorySize function and its overflow checks, the gas
-   function: every stack index they read is covered by the arity validateStack checked, on the regenerated
-   tables (InterpProofsPanic.tables_arity_ok).  Missing: the execute functions themselves — that the memory
-   Run resized covers every Memory.Get/Set/GetPtr an instruction makes (from mem_size_big and the
-   0xffffffffe0 bound of memoryGasCost), that each instruction's stack shape fits its arity, that
-   bigModExp's buffers stay below the allocator's limit for gas < 2^32, and the induction over nested frames.
-   On the implementation this is covered by the recover()/child-process oracle on every case, incl. the
-   (offset, length) lattice for every such instruction. *)
+   What (a)-(c) leave open is the induction over the loop and the nested frames: that frame_sane is an invariant
+   (every instruction pushes a non-negative integer, memory and return data stay byte-valued — which needs the
+   corresponding well-formedness of world, environment and oracle) and that bigModExp's buffers stay below the
+   allocator's limit when gas < 2^32.  Proved part kept from before: nothing before execute panics, for any frame. *)
 Theorem C07_run_never_panics_partial : forall rec e w fr o, wf_env e ->
   (forall w1 fr1 x temp, exec rec e w1 fr1 x temp <> X_panic) ->
   step rec e w fr = S_done o -> o_res o <> R_panic.
 Proof. exact step_panics_only_in_execute. Qed.
 Print Assumptions C07_run_never_panics_partial.
+
+Example C07_frame_sane_nonvacuous : frame_sane (new_frame [0x60;1;0x60;0;0x52;0] [] 0xbb 0xaa 0 100000 false 1 []).
+Proof. exact frame_sane_example. Qed.
+Print Assumptions C07_frame_sane_nonvacuous.
 
 Example C07_memory_nonvacuous : exists w fr,
   frame_reach (interp 10 (demo_env 40000)) (demo_env 40000) demo_world
